@@ -76,6 +76,21 @@ Theorem context_cause_irrelevant : forall cfg c ctx0 script sched,
 Proof. exact run_cause_irrelevant. Qed.
 Print Assumptions context_cause_irrelevant.
 
+(* commonerrors.ConvertContextError, whose ordered rule list is REGENERATED from utils/commonerrors/errors.go (Gen.v), is the
+   model's [convert]; and only a context error becomes cancelled / timeout: an error of the operation that is not a
+   context error — whatever its shape: opaque, ErrTimeout / ErrCancelled returned by the operation, an os / syscall / net
+   error with Timeout() = true, wrapped, joined — is handed through. *)
+Theorem convert_rules_match_model : forall e,
+  conv_by_rules ConvertContextError_rules (Some e) = convert e /\ conv_by_rules ConvertContextError_rules None = RNil.
+Proof. intros e. split; [apply ProofsGen.convert_rules_gen|apply ProofsGen.convert_rules_nil]. Qed.
+Print Assumptions convert_rules_match_model.
+
+Theorem only_context_errors_are_converted : forall e,
+  conv_by_rules ConvertContextError_rules (Some e) = RCancelled \/ conv_by_rules ConvertContextError_rules (Some e) = RTimeout ->
+  exists k, e = ECtx k.
+Proof. intros e. rewrite ProofsGen.convert_rules_gen. apply ProofsGen.convert_only_ctx. Qed.
+Print Assumptions only_context_errors_are_converted.
+
 (* A disabled policy: exactly one invocation, its error handed through unchanged. *)
 Theorem disabled_policy_single_attempt : forall cfg ctx0 script sched,
   c_enabled cfg = false ->
@@ -191,11 +206,11 @@ Proof. vm_compute. repeat split; reflexivity. Qed.
 
 Definition cfg_ex : rcfg := mkCfg true 3 false CtxCancel 7.
 Example run_ex :
-  run cfg_ex false [mkAtt (ORetriable (EPlain 0)) false false; mkAtt (ORetriable (EPlain 1)) false false;
-                    mkAtt (ORetriable (EPlain 2)) false false; mkAtt OSucc false false] []
-  = ([(0, false); (1, false); (2, false)]%nat, RErr (EPlain 2)) /\
-  run cfg_ex false [mkAtt (ORetriable (EPlain 0)) true false; mkAtt OSucc false false] [true; true]
+  run cfg_ex false [mkAtt (ORetriable (EPlain 0 0)) false false; mkAtt (ORetriable (EPlain 1 0)) false false;
+                    mkAtt (ORetriable (EPlain 2 0)) false false; mkAtt OSucc false false] []
+  = ([(0, false); (1, false); (2, false)]%nat, RErr (EPlain 2 0)) /\
+  run cfg_ex false [mkAtt (ORetriable (EPlain 0 0)) true false; mkAtt OSucc false false] [true; true]
   = ([(0, false)]%nat, RCancelled) /\
-  run cfg_ex false [mkAtt (ORetriable (EPlain 0)) false false; mkAtt OSucc false false] []
+  run cfg_ex false [mkAtt (ORetriable (EPlain 0 0)) false false; mkAtt OSucc false false] []
   = ([(0, false); (1, false)]%nat, RNil).
 Proof. repeat split; reflexivity. Qed.
